@@ -202,3 +202,39 @@ func mapLiteralConstValue(v ssa.Value, key string) (string, bool) {
 	walk(mm)
 	return out, found
 }
+
+// mapLiteralValue: the value stored under the constant key in the map composite literal v, if any.
+func mapLiteralValue(v ssa.Value, key string) ssa.Value {
+	v = strip(v)
+	for i := 0; i < 4; i++ {
+		if ct, ok := v.(*ssa.ChangeType); ok {
+			v = strip(ct.X)
+		}
+	}
+	mm, ok := v.(*ssa.MakeMap)
+	if !ok || mm.Referrers() == nil {
+		return nil
+	}
+	var out ssa.Value
+	var walk func(val ssa.Value)
+	walk = func(val ssa.Value) {
+		if val.Referrers() == nil {
+			return
+		}
+		for _, r := range *val.Referrers() {
+			switch x := r.(type) {
+			case *ssa.MapUpdate:
+				if x.Map != val {
+					continue
+				}
+				if k, ok := constString(x.Key); ok && k == key {
+					out = x.Value
+				}
+			case *ssa.ChangeType:
+				walk(x)
+			}
+		}
+	}
+	walk(mm)
+	return out
+}
